@@ -91,7 +91,9 @@ func readFrameOfType(fType byte, reader *bufio.Reader, isTCP bool) (frame, error
 	// Verify CRC sums
 	if !isTCP {
 		sumBytes := make([]byte, 2)
-		reader.Read(sumBytes)
+		if _, err := io.ReadFull(reader, sumBytes); err != nil {
+			return nil, err
+		}
 		crc := binary.BigEndian.Uint16(sumBytes)
 		if crc16Sum(data) != crc {
 			return nil, ErrChecksumMismatch
